@@ -77,7 +77,7 @@ Print Assumptions C10_median_permutation_invariant.
     pairs and abstentions have no influence: deleting all of them leaves the outcome (store, events,
     panic or not) unchanged; two stores that agree on the relevant votes give the same outcome. *)
 Theorem C10_irrelevant_votes_no_influence :
-  forall p st h, wf st -> in_range (threshold_raw p (bonded_power st)) = true ->
+  forall p st h, wf st -> threshold_ok p (bonded_power st) = true ->
   update true p (strip st) h = update true p st h.
 Proof. exact strip_no_influence. Qed.
 Print Assumptions C10_irrelevant_votes_no_influence.
@@ -88,7 +88,7 @@ Theorem C10_same_relevant_votes_same_outcome :
   bonded_tokens st2 = bonded_tokens st1 -> power_reduction st2 = power_reduction st1 ->
   whitelist st2 = whitelist st1 -> rates st2 = rates st1 ->
   votes (strip st2) = votes (strip st1) ->
-  in_range (threshold_raw p (bonded_power st1)) = true ->
+  threshold_ok p (bonded_power st1) = true ->
   end_block true p st2 h = end_block true p st1 h.
 Proof. exact irrelevant_votes_no_influence. Qed.
 Print Assumptions C10_same_relevant_votes_same_outcome.
